@@ -20,7 +20,7 @@ func init() {
 	Register(&Prop{
 		ID:    "C17",
 		Title: "Stored-file indexes and prover lists stay mutually consistent",
-		Cases: func(t string) int { return tierN(t, 140, 2400) },
+		Cases: func(t string) int { return tierN(t, 140, 20000) },
 		Run:   runC17,
 		Rule: "case = one history of 35-60 steps over 2 owners and 4 providers: post (plan-paid / pay-once, replication 1-4, the same merkle by two owners, the same merkle twice in one block), honest proofs, deliberately skipped windows, owner delete, provider shutdown and re-init, report forms and reports (form size 1, minimum 1, so a single report removes a prover), attestation forms and attestations, blocks with proof window 2-4 and reward interval 2-3 so reward blocks remove provers at varying list positions and drop files; " +
 			"oracle after every transaction and every BeginBlock: AllFilesByMerkle and AllFilesByOwner (paginated to exhaustion) hold the same set of byte-identical records and agree with AllFiles; per file no duplicate provers, len(Proofs) <= MaxProofs, every listed key resolves through the Proof query to a record that rebuilds the same key and names this file and appears in ProofsByAddress; FindFile returns exactly the IPs of the registered providers among the listed provers; " +
